@@ -66,6 +66,7 @@ type errResult struct {
 	name string // callee#ordinal
 	term Term
 	pos  token.Pos
+	tol  string // disjunction of the toleration conditions, evaluated where the call was made
 }
 
 type allocType struct {
